@@ -176,39 +176,29 @@ theorem fstep_path (now : Time) (d : Dev) (i : FA) (o : Oracle) (f : F)
       · exact hr
       · exact Path.delay us r ss hr
     | setplugstate lit pm sm is target =>
-      by_cases hx : d.xmUsed = true
-      · have hfs : fstep now d i o f =
-            ⟨(setplugstatePure d i.arglist o target lit pm sm is).1, i, (setplugstatePure d i.arglist o target lit pm sm is).2.1,
-             (setplugstatePure d i.arglist o target lit pm sm is).2.2, ⟨r, false⟩,
-             classify (setplugstatePure d i.arglist o target lit pm sm is).2.2 true⟩ := by
-          unfold fstep; simp only [hrem, hx, Bool.not_true, Bool.false_eq_true, ↓reduceIte]
-        rw [hfs]
-        simp only [sents_setplugstatePure, List.nil_append]
-        intro h
-        have goal : PathF f ss = Path (.setplugstate lit pm sm is target :: r) ss := by unfold PathF; simp only [hrem]
-        rw [goal]; apply Path.setplugstate
-        cases r <;> (try rename_i x xs; cases x) <;> simpa [PathF] using h
-      · exfalso
-        have hfs : (fstep now d i o f).status = .aborted := by
-          unfold fstep; simp only [hrem, hx, Bool.not_false, ↓reduceIte]
-        rw [hfs] at hs; simp at hs
+      have hfs : fstep now d i o f =
+          ⟨(setplugstatePure d i.arglist o target lit pm sm is).1, i, (setplugstatePure d i.arglist o target lit pm sm is).2.1,
+           (setplugstatePure d i.arglist o target lit pm sm is).2.2, ⟨r, false⟩,
+           classify (setplugstatePure d i.arglist o target lit pm sm is).2.2 true⟩ := by
+        unfold fstep; simp only [hrem]
+      rw [hfs]
+      simp only [sents_setplugstatePure, List.nil_append]
+      intro h
+      have goal : PathF f ss = Path (.setplugstate lit pm sm is target :: r) ss := by unfold PathF; simp only [hrem]
+      rw [goal]; apply Path.setplugstate
+      cases r <;> (try rename_i x xs; cases x) <;> simpa [PathF] using h
     | setresult pm sm is =>
-      by_cases hx : d.xmUsed = true
-      · have hfs : fstep now d i o f =
-            ⟨(setresultPure d i.arglist i.clientId o pm sm is).1, i, (setresultPure d i.arglist i.clientId o pm sm is).2.1,
-             (setresultPure d i.arglist i.clientId o pm sm is).2.2, ⟨r, false⟩,
-             classify (setresultPure d i.arglist i.clientId o pm sm is).2.2 true⟩ := by
-          unfold fstep; simp only [hrem, hx, Bool.not_true, Bool.false_eq_true, ↓reduceIte]
-        rw [hfs]
-        simp only [sents_setresultPure, List.nil_append]
-        intro h
-        have goal : PathF f ss = Path (.setresult pm sm is :: r) ss := by unfold PathF; simp only [hrem]
-        rw [goal]; apply Path.setresult
-        cases r <;> (try rename_i x xs; cases x) <;> simpa [PathF] using h
-      · exfalso
-        have hfs : (fstep now d i o f).status = .aborted := by
-          unfold fstep; simp only [hrem, hx, Bool.not_false, ↓reduceIte]
-        rw [hfs] at hs; simp at hs
+      have hfs : fstep now d i o f =
+          ⟨(setresultPure d i.arglist i.clientId o pm sm is).1, i, (setresultPure d i.arglist i.clientId o pm sm is).2.1,
+           (setresultPure d i.arglist i.clientId o pm sm is).2.2, ⟨r, false⟩,
+           classify (setresultPure d i.arglist i.clientId o pm sm is).2.2 true⟩ := by
+        unfold fstep; simp only [hrem]
+      rw [hfs]
+      simp only [sents_setresultPure, List.nil_append]
+      intro h
+      have goal : PathF f ss = Path (.setresult pm sm is :: r) ss := by unfold PathF; simp only [hrem]
+      rw [goal]; apply Path.setresult
+      cases r <;> (try rename_i x xs; cases x) <;> simpa [PathF] using h
     | guard w node body =>
       have goal : PathF f ss = Path (.guard w node body :: r) ss := by unfold PathF; simp only [hrem]
       by_cases hc : condHolds w (nodeState d i.arglist node) = true
